@@ -12,7 +12,7 @@ def run(ctx):
     from contracts import c14_memo as M14
 
     dsl.verify(ctx, repo, M14.registry(), "C02.cache", M14.UT + ".list_of_np_cache", M14.h_list_cache, expect_covers=M14.LIST_COVERS)
-    dsl.verify(ctx, repo, M14.registry(), "C02.cache", M14.UT + ".two_np_arr_cache", M14.h_pair_cache, expect_covers=M14.PAIR_COVERS)
+    dsl.verify(ctx, repo, M14.registry(), "C02.cache", M14.UT + ".two_np_arr_cache", M14.h_pair_cache, expect_covers=M14.PAIR_COVERS, concretise=M14.replay_pair_cache)
     ctx.assume("A-REAL: the deductive obligations are over the reals; every floating-point clause (underflow floor, never-below-exact, finiteness, FFT 1e-6) is bounded-only")
     ctx.trust("M-REC: the recursion R = P*S, S = prefix sums of D, D = iterated truncated convolution equals the flat sum over constrained index assignments (trusted; brute force, bounded)")
     ctx.extra["explanation"] = ("Deductive (real arithmetic): the convolution / prefix-sum / node-update functions equal their recursive specification for any number of samples, "
